@@ -4,6 +4,71 @@ _NOTE = ("Trusted base: CPython 3.12 ast parser, the rule slot tables (confirmed
          "CFG/dominator code. Decides only the named structural clauses (necessary conditions); the runtime behaviour as a whole is not decided.")
 
 CLAIMED = {
+    "C02": {
+        "text": "Narrow claim, decided on every run: the last transformation of the returned table is a deduplicating Pareto filter placed after the EDP rewrite (must-pass-through with ordering on the CFG), nothing after it can add or duplicate rows, the filter chain never disables dedup, and reservation columns are dropped before the last filters when RESOURCE_USAGE is not requested. Necessary for 'no dominated / duplicate row is returned'; completeness of the front is a value property and is not claimed.",
+        "design_ref": "DESIGN.md section 3, C02", "note": _NOTE,
+        "technique": 'static analysis: CFG must-pass-through + ordering (dominance) + effect whitelist after the filter (ast)',
+    },
+
+    "C03": {
+        "text": 'Narrow claim, decided on every run: a capacity filter follows the last reservation increase on every path to the returned table (disjunctive must-pass-through with infeasible-branch pruning on CHECK_CORRECTNESS), row filters at least as strict as col <= 1 + tolerance, usage objectives bounded by a constant <= 1 with masks following the inclusive flag, coherent loop-bound operator table, fused-loop limit comparator. One-sided rules: stricter code is accepted.',
+        "design_ref": "DESIGN.md section 3, C03", "note": _NOTE,
+        "technique": 'static analysis: CFG dominance / must-pass-through with constant folding, comparator and table rules on normal forms (ast)',
+    },
+
+    "C07": {
+        "text": "Narrow claim, decided on every run: memoisation soundness on the symbolic->numeric path: 25 lru_cache'd functions read no re-bound global, instance-cached queries are only used after the tables they read are final, explicit caches key on every input, identity-keyed caches keep their keys alive on every path, and compile / column fill / call / final reorder all use one `symbols` list.",
+        "design_ref": "DESIGN.md section 3, C07", "note": _NOTE,
+        "technique": 'static analysis: free-variable / who-may-write analysis for cache keys, pairing rule (CFG), def-use of the positional symbol list (ast)',
+    },
+
+    "C09": {
+        "text": "Decided on every run: conservative fallbacks (constant returns / handlers answer 'may cross'), polarity coherence by specialising _compare_to_zero on its single boolean (AST constant folding) against the exact tuples with one-sided tolerance for more conservative entries, exhaustive evaluation of the 4-case combination table and of all 16 pairs of the lattice join, and agreement of the three verdict->goal tables. The verdict of sympy on a concrete formula is not decided.",
+        "design_ref": "DESIGN.md section 3, C09", "note": _NOTE,
+        "technique": 'static analysis: AST specialisation (partial evaluation over one boolean), exhaustive abstract evaluation of small decision tables, handler census (ast)',
+    },
+
+    "C12": {
+        "text": 'Narrow claim, decided on every run: writer/reader codec agreement of the column-name convention used by the pruning/joining path (templates folded from f-strings vs partition_col/startswith expectations), disjoint classifier prefixes, tolerance routing per column class with identity at zero tolerance, and lock-step of columns and goals. The (1+t) bound itself is numeric and not decided.',
+        "design_ref": "DESIGN.md section 3, C12", "note": _NOTE,
+        "technique": 'static analysis: template folding of writer f-strings vs reader specs (codec agreement), branch pairing rule (ast)',
+    },
+
+    "C13": {
+        "text": 'Narrow claim, decided on every run: eq/hash/order coherence and immutability of the join keys, incompatible pairs are skipped and compatible ones merged (the only skips before the merge are the duplicate guard and the ValueError of the compatibility merge, which raises on the loop-count check), merge keys appended pairwise and used as an inner join, mismatch empties the result. The numeric content of joining is not decided.',
+        "design_ref": "DESIGN.md section 3, C13", "note": _NOTE,
+        "technique": 'static analysis: dunder coherence over field sets, who-may-write on frozen keys, skip census in the merge loop (ast/CFG)',
+    },
+
+    "C14": {
+        "text": "Decided on every run: threshold sequences end exact (constant evaluation), dirty rounds only feed filters and the returned join is the final round's, early returns only through the for-else of the oversubscription scan, exceptions swallowed only on non-final rounds, the optimality thresholder is a one-sided filter (|= of <= per column, &= across reference points), and memories are left untracked only under data-derived bounds <= 1. Equality of the staged and exact fronts is a value property.",
+        "design_ref": "DESIGN.md section 3, C14", "note": _NOTE,
+        "technique": 'static analysis: constant evaluation of threshold lists, CFG control-dependence / return placement, operator-shape rules (ast)',
+    },
+
+    "C15": {
+        "text": 'Decided on every run: compress partitions the columns (complement over the same sequence, both slices from the same re-indexed frame), ids are reset, shifted and advanced cumulatively by table length, the id column written is the one read at both decompress sites and dropped only after all merges, the decompress merge matches ids on the left with the index on the right over exactly one source row, and unordered compress results are re-ordered by input key order.',
+        "design_ref": "DESIGN.md section 3, C15", "note": _NOTE,
+        "technique": 'static analysis: partition/complement rule, progress rule on the id counter, writer/reader key agreement, ordering via CFG dominance (ast)',
+    },
+
+    "C17": {
+        "text": 'Narrow claim (sentence 3 and its plumbing), decided on every run: EDP column normalises to Total energy x Total latency computed before either factor is deleted and factors are deleted only under the negation of their own flag; Total energy = leak + dynamic with parts re-emitted under their own flags; the Metrics flag lattice by constant evaluation of the masks; run_model emits each Total column under exactly the matching includes_* test. Consistency of optima across metric sets is a value property.',
+        "design_ref": "DESIGN.md section 3, C17", "note": _NOTE,
+        "technique": 'static analysis: polynomial normal form of column formulas, guard-dominates-delete, constant evaluation of flag masks (ast/CFG)',
+    },
+
+    "C19": {
+        "text": 'Decided on every run: homogeneity of the cost model by a degree (dimension) analysis on polynomial normal forms: every emitted cost column is one product term with exactly one n_instances and no offset, energies degree 1 in per-action energy / leak power, latency degree -1 in throughput, component cost producers only multiply; plus a census of absolute-magnitude float literals on the cost path against a frozen table. Scale-invariance of the optimiser itself is not decided.',
+        "design_ref": "DESIGN.md section 3, C19", "note": _NOTE,
+        "technique": 'static analysis: degree/dimension analysis over polynomial normal forms, literal census (ast)',
+    },
+
+    "C24": {
+        "text": 'Narrow claim, decided on every run: a non-box set is never sized with the box formula (box formula only under is_box(), otherwise card() behind a support check, non-constant bounds raise), sibling agreement of the inclusive extent (max - min + 1) and of the occupancy formula (substitute extent - 1, add 1) in normal form, and save/restore pairing of the temporary shape overwrite on every non-raising path. Numeric equality with enumeration is not decided.',
+        "design_ref": "DESIGN.md section 3, C24", "note": _NOTE,
+        "technique": 'static analysis: guard-dominates-return, sibling cross-check on normal forms, save/restore pairing on the CFG (ast)',
+    },
     "C31": {
         "text": "Decided on every run: a Toll's occupancy is zeroed for every tensor on the returning path and zero-occupancy buffets are skipped before size lookups; "
                 "count_writes=False makes write_scale 0, which factor analysis shows in every term of every write-action increment; latency and the action list agree; "
